@@ -15,9 +15,9 @@ RULE = ("one case = (method, direction, dense flag, mix of 1..3 terminal and 0..
 ASSUMPTIONS = ["tangential terminal roots (|dg/dt| < 5% of scale) and runs whose node error makes root matching ambiguous are excluded",
                "continuations use no events or a different, later terminal event (re-arming the same event at its own root is not specified by the property)"]
 FLOORS = {"quick": {"terminal_landings": 50, "landings_backward": 15, "landings_with_substeps": 30, "continuations_checked": 45, "infinite_target_runs": 8,
-                    "dense_checked_after_stop": 15, "second_terminal_stops": 5},
+                    "dense_checked_after_stop": 15, "second_terminal_stops": 5, "close_pair_cases": 25},
           "thorough": {"terminal_landings": 500, "landings_backward": 150, "landings_with_substeps": 300, "continuations_checked": 450, "infinite_target_runs": 80,
-                       "dense_checked_after_stop": 300, "second_terminal_stops": 80}}
+                       "dense_checked_after_stop": 300, "second_terminal_stops": 80, "close_pair_cases": 250}}
 QUICK_METHODS = ["RK45CKSolver", "DOPRI45", "RK4Solver", "RK8713MSolver", "ABAs5o6HSolver", "RadauIIA5", "GaussLegendre4", "RK5Solver", "LobattoIIIC4", "RK108Solver"]
 CASE_TIMEOUT = 900
 K = 10.0
@@ -41,6 +41,13 @@ def gen_cases(tier, seed):
                                       nterm=int(rng.integers(1, 4)), nnon=int(rng.integers(0, 4)), inf=bool(rng.random() < 0.2),
                                       cont=str(rng.choice(["plain", "to_mid", "second_terminal", "plain"])), pseed=int(rng.integers(1 << 30)),
                                       cost=(2 if info["explicit"] else 14)))
+    for name in names:
+        for d in (1, -1):
+            for r in range(2 if tier == "quick" else 6):
+                L = float(rng.uniform(3.0, 6.0))
+                t0 = float(rng.uniform(-4, 4))
+                cases.append(dict(method=name, direction=d, dense=bool(rng.random() < 0.5), t0=t0, tf=t0 + d * L, nsteps=float(rng.uniform(12, 30)), nterm=1, nnon=2, inf=False,
+                                  cont="plain", close_pair=True, pseed=int(rng.integers(1 << 30)), cost=(2 if M[name]["explicit"] else 14)))
     return cases
 
 
@@ -57,6 +64,14 @@ def run_case(spec):
     kinds = ["component", "linear", "time", "norm2"]
     tspecs = [random_event_spec(rng, prob, t0, t0 + 0.8 * (tf - t0), dim, terminal=True, kinds=kinds, scale_decades=(-4, 4)) for _ in range(spec["nterm"])]
     nspecs = [random_event_spec(rng, prob, t0, tf, dim, terminal=False, kinds=kinds, scale_decades=(-4, 4)) for _ in range(spec["nnon"])]
+    if spec.get("close_pair"):
+        # a non-terminal and a terminal TIME event whose roots lie within a small fraction of one step of each other, in both time orders;
+        # the final list order below is a random permutation, so list order and time order disagree in about half of the cases
+        tcp = t0 + float(rng.uniform(0.3, 0.7)) * (tf - t0)
+        delta = float(rng.uniform(0.02, 0.3)) * abs(tf - t0) / spec["nsteps"] * float(rng.choice([-1, 1]))
+        tspecs = [{"kind": "time", "scale": float(10 ** rng.uniform(-2, 2)) * float(rng.choice([-1, 1])), "c": tcp, "direction": 0, "terminal": True}]
+        nspecs = [{"kind": "time", "scale": float(10 ** rng.uniform(-2, 2)) * float(rng.choice([-1, 1])), "c": tcp + delta, "direction": 0, "terminal": False},
+                  {"kind": "time", "scale": float(10 ** rng.uniform(-2, 2)), "c": tcp - 0.5 * delta, "direction": 0, "terminal": False}]
     if spec["inf"]:
         # an indefinite run needs a terminal event that certainly fires
         tspecs.append({"kind": "time", "scale": float(10 ** rng.uniform(-3, 3)), "c": t0 + 0.9 * (tf - t0), "direction": 0, "terminal": True})
@@ -194,6 +209,17 @@ def run_case(spec):
     tt_ = np.array([float(e.t) for e in evs])
     if len(tt_) > 1 and not np.all(d * np.diff(tt_) >= 0):
         rec.violate("terminal_reporting", "events_not_in_order", feats, times=[float(x) for x in tt_[:8]])
+    if spec.get("close_pair"):
+        rec.bump("close_pair_cases")
+        tnon = [e.c for e in events if not e.is_terminal]
+        rep_non = [float(e.t) for e in evs[:-1]]
+        for c_ in tnon:
+            before = d * (c_ - te) < -tolx * 4
+            found = any(abs(x - c_) <= 1e-6 * L for x in rep_non)
+            if before and not found:
+                rec.violate("terminal_reporting", "non_terminal_event_before_the_terminal_one_not_reported", feats, t_nonterm=c_, t_term=te, reported=rep_non[:5])
+            if (not before) and d * (c_ - te) > tolx * 4 and found:
+                rec.violate("terminal_reporting", "non_terminal_event_after_the_terminal_one_reported", feats, t_nonterm=c_, t_term=te)
     # (e) C03 segment invariants for the stop (target = event time): nothing beyond, monotone, paired, first row = y0
     if len(t) >= 3 and abs(float(t[-1]) - float(t[-2])) < abs(float(t[-2]) - float(t[-3])) * 0.999 or len(t) > 2:
         rec.bump("landings_with_substeps")
